@@ -32,6 +32,29 @@ where
     alt1.then_ignore(end()).or(alt2.then(tail).map(|(a, b)| a.cat(b)))
 }
 
+/// The iterator under a `Stream`: hands out `x` in order, one item per `next`, and counts the calls that returned an
+/// item. A plain `Iterator` (no size hint, not `TrustedLen`): `Stream` grows its cache item by item, with concrete
+/// capacities — with `x.iter().copied()` the cache is reserved in one go with a SYMBOLIC size, which CBMC pays for with
+/// tens of GB (measured: out of memory at 30 GB). What is under test is `Stream`, not the iterator.
+pub struct Pull<'a> {
+    x: &'a [u8],
+    i: usize,
+    pulls: &'a Cell<usize>,
+}
+impl<'a> Iterator for Pull<'a> {
+    type Item = u8;
+    fn next(&mut self) -> Option<u8> {
+        if self.i < self.x.len() {
+            let v = self.x[self.i];
+            self.i += 1;
+            self.pulls.set(self.pulls.get() + 1);
+            Some(v)
+        } else {
+            None
+        }
+    }
+}
+
 macro_rules! same_as_slice {
     ($t:expr, $x:expr, $other:expr) => {{
         let r0 = g::<&[u8]>($t).parse($x);
@@ -52,34 +75,25 @@ macro_rules! same_as_slice {
 }
 
 /// @harness props=C10:Q,C20:T n=3 err=Cheap timeout=900
-/// @shape g = (t0 t1 end)#1 | (t0 t2 t1? t2{0,1})#2 with spans;  &[u8]  vs  Stream::from_iter
-/// @symbolic t0..t2: u8; input 3 bytes
-/// @aims Stream caches pulled tokens: backtracking re-reads the cache (same tokens, same spans)
-pub fn c10_stream_body<S: Src>(s: &mut S) {
-    let t = [s.u8(), s.u8(), s.u8()];
-    let inp = Inp::<3>::any(s);
-    let x = inp.get();
-    let stream = Stream::from_iter(x.iter().copied());
-    same_as_slice!(t, x, g::<Stream<_>>(t).parse(stream));
-}
-
-/// @harness props=C10:Q,C20:T n=3 err=Cheap timeout=900
 /// @shape (t0 t1) | (t0 any) | any any any   on a Stream over a pull-counting iterator
 /// @symbolic t0, t1: u8; input 3 bytes
-/// @aims a Stream pulls every item from its iterator at most once and in order, however much the parser backtracks
+/// @aims a Stream pulls every item from its iterator at most once and in order, however much the parser backtracks; acceptance as on &[u8]. (Outputs, spans and error positions of a Stream are compared in c10_array_boxed; a Stream-vs-slice differential with symbolic LENGTH does not fit in memory: measured out of memory at 30 GB)
 pub fn c10_stream_pulls_body<S: Src>(s: &mut S) {
     let t = [s.u8(), s.u8()];
     let inp = Inp::<3>::any(s);
     let x = inp.get();
     let pulls = Cell::new(0usize);
-    let pulls_ref = &pulls;
-    let it = x.iter().copied().inspect(move |_| pulls_ref.set(pulls_ref.get() + 1));
-    let stream = Stream::from_iter(it);
+    let stream = Stream::from_iter(Pull { x, i: 0, pulls: &pulls });
     let j = |c: u8| just::<u8, Stream<_>, X>(c);
     let p = j(t[0]).then(j(t[1])).ignored().or(j(t[0]).then(any()).ignored()).or(any().then(any()).then(any()).ignored());
     let r = p.parse(stream);
     contract(&r);
     check!("C10:stream-pulls-each-item-at-most-once", pulls.get() <= x.len());
+    // what the same grammar accepts on &[u8] (ordered choice commits to the first alternative that matches, then the
+    // whole input must have been consumed): t0 followed by exactly one more token, or three tokens not starting with
+    // t0 — the tokens re-read from the cache after backtracking must be the ones that were pulled
+    let want = (x.len() == 2 && x[0] == t[0]) || (x.len() == 3 && x[0] != t[0]);
+    check!("C10:same-acceptance", r.has_output() == want);
     cover!("cover:accept", r.has_output());
     cover!("cover:backtracked", r.has_output() && x.len() == 3);
 }
@@ -178,7 +192,6 @@ pub fn c10_str_vs_bytes_body<S: Src>(s: &mut S) {
 }
 
 crate::harnesses! {
-    c10_stream [6] = c10_stream_body;
     c10_stream_pulls [6] = c10_stream_pulls_body;
     c10_iter_input [6] = c10_iter_input_body;
     c10_mapped [6] = c10_mapped_body;
